@@ -687,9 +687,13 @@ def _get_samples_from_slice_sampler_(gp: gpr.GP, hyp_gp, optim_state, options):
     sampler_failed = True
     for hyp in new_hyp:
         try:
+            # the retry logic may have raised the noise lower bound above the
+            # current sample: start the sampler from inside the bounds
             hyp_sampler = SliceSampler(
                 sample_f,
-                hyp.flatten(),
+                np.minimum(
+                    np.maximum(hyp.flatten(), gp.lower_bounds), gp.upper_bounds
+                ),
                 width,
                 gp.lower_bounds,
                 gp.upper_bounds,
